@@ -269,3 +269,7 @@ def run_thorough(ck):
         feat.check(ck, P, "FEAT/gated-call", cfg)
         statics(ck, P, cfg)
         ambient(ck, P, cfg)
+
+# session 5 (round 9, D24)
+EXPLANATION = EXPLANATION + " " + (
+    'SIB/resume-gzindex (shared with C20): the offset into a gzip header field is set to 0 when the fixed header part has been written, so an offset left by a suspended header write does not reach the member after a reset.')
